@@ -2,7 +2,7 @@
 from harness.props import sysrun
 from harness.sched import monitors as M
 
-PROP_FILE = 'C05'
+PROP_FILE = ['C05', 'C05Legacy']
 
 
 def mons():
@@ -28,7 +28,11 @@ def run(ctx):
                      rule='multipart uploads and copies (1-4 parts, request concurrency 1-3): a fault at create / each part / complete '
                           '(before and after the service applied it), source read faults, raising callbacks, a cancel at every k-th '
                           'scheduling point; per upload id the fake S3 log is checked against create.part*.(complete|abort) with the '
-                          'abort after every other response; distinct = distinct event trace')
+                          'abort after every other response; distinct = distinct event trace. Legacy uploader: differential of the real '
+                          'S3Transfer.upload_file against the extracted Legacy model with a fault at every call position')
+    if ctx.broken is None:
+        from harness.props import legacy
+        legacy.check_c05(ctx)
 
 
 def replay(ctx, data):
